@@ -27,6 +27,8 @@ try:
     subprocess.run(["git", "-C", "/repo", "worktree", "add", "--detach", "-q", wt, rev], check=True)
     meta["base_commit"] = subprocess.run(["git", "-C", wt, "log", "--format=%h", "-1"], capture_output=True, text=True).stdout.strip()
     r = subprocess.run(["git", "-C", wt, "apply", os.path.join(out, "patch.diff")], capture_output=True, text=True)
+    if r.returncode:
+        r = subprocess.run(["git", "-C", wt, "apply", "-C1", "--recount", os.path.join(out, "patch.diff")], capture_output=True, text=True)
     meta["ran"][f"git apply on /repo {rev}"] = "ok" if r.returncode == 0 else r.stderr[-300:]
     if r.returncode:
         raise SystemExit("patch does not apply")
